@@ -8,6 +8,7 @@
     the correspondence (Go strings, Go's suffix lists) satisfies the assumptions
     ([C08_instance]).
 
+    All seven transformations of the property (and the CNF sub-steps) are proved.
     Every transformation that introduces non-terminals can hit Go's documented panic "Failed to
     generate a new non-terminal" (a suffix list is exhausted): the model returns
     [Panic OutOfNames] exactly then (known finding fresh-name-exhaustion), and the theorems
@@ -16,7 +17,7 @@
 From Coq Require Import List.
 From Algo.Grammar Require Import CFG.
 From Algo.C08 Require Import Model Spec ProofsBase ProofsLang1 ProofsLang2 ProofsLang3 ProofsLang4
-     Names NamesProofs Recognise RecogniseProofs.
+     ProofsLF ProofsELR Names NamesProofs Recognise RecogniseProofs.
 Import ListNotations.
 
 Section C08.
@@ -107,29 +108,25 @@ Section C08.
   Theorem C08_semantics : forall (G : gram) w, L G w <-> gen (prods G) (Nt (start G)) w.
   Proof. exact L_gen. Qed.
 
-  (** the full statements for the two transformations not yet proved in full *)
-  Definition C08_left_factor_full : Prop :=
-    forall G : gram, valid G -> preserves (left_factor teqb neqb fresh) G.
-  Definition C08_left_recursion_elim_full : Prop :=
-    forall (order : gram -> list N) (G : gram), valid G ->
-      preserves (left_recursion_elim teqb neqb fresh order) G.
-
-  (** EliminateLeftRecursion, partial: it never hangs before its own loop, its first stage
-      (EliminateCycles) is language preserving, and the loop keeps terminals and start symbol.
-      Missing: the substitution step A_i -> A_j γ and the immediate-recursion step are not yet
-      proved language preserving (the correspondence and the bounded oracle check them). *)
-  Theorem C08_left_recursion_elim_partial :
-    forall (order : gram -> list N) (G G' : gram), valid G ->
-      left_recursion_elim teqb neqb fresh order G = Ok G' ->
-      exists G1, cycles_elim teqb neqb fresh G = Ok G1 /\ (forall w, L G1 w <-> L G w) /\
-                 terms G' = terms G1 /\ start G' = start G1.
+  (** LeftFactor (the code as it is: one pass over the heads; its normal form is the subject of
+      C09 and of the known finding D09b — the language is preserved regardless) *)
+  Theorem C08_left_factor : forall G : gram, valid G -> preserves (left_factor teqb neqb fresh) G.
   Proof.
-    intros order G G' HG H. unfold left_recursion_elim in H.
-    pose proof (cycles_total teqb neqb fresh teqb_spec neqb_spec fresh_spec G (valid_wf G HG)) as Hc.
-    destruct (cycles_elim teqb neqb fresh G) as [G1| |]; simpl in H; try discriminate.
-    destruct Hc as [HL _]. exists G1. split; [reflexivity|]. split; [exact HL|].
-    destruct (elr_loop teqb neqb fresh [] (order G1) (nonterms G1, prods G1)); simpl in H; try discriminate.
-    inversion H; subst. split; reflexivity.
+    intros G HG. destruct (ok_or_names_disj _ _ (left_factor_total teqb neqb fresh teqb_spec neqb_spec fresh_spec G (valid_wf G HG))) as [H|(G' & H1 & H2 & _)].
+    - left; exact H.
+    - right. exists G'. split; [exact H1 | exact H2].
+  Qed.
+
+  (** EliminateLeftRecursion, for every order of the non-terminals without repetitions
+      (OrderNonTerminals lists each non-terminal once; the order itself is immaterial) *)
+  Theorem C08_left_recursion_elim : forall (order : gram -> list N) (G : gram),
+    (forall G1, NoDup (order G1)) -> valid G ->
+    preserves (left_recursion_elim teqb neqb fresh order) G.
+  Proof.
+    intros order G Hord HG.
+    destruct (ok_or_names_disj _ _ (left_recursion_elim_total teqb neqb fresh teqb_spec neqb_spec fresh_spec order G (valid_wf G HG) Hord)) as [H|(G' & H1 & H2 & _)].
+    - left; exact H.
+    - right. exists G'. split; [exact H1 | exact H2].
   Qed.
 End C08.
 
@@ -180,7 +177,8 @@ Print Assumptions C08_chomsky.
 Print Assumptions C08_cycles.
 Print Assumptions C08_nullable.
 Print Assumptions C08_semantics.
-Print Assumptions C08_left_recursion_elim_partial.
+Print Assumptions C08_left_factor.
+Print Assumptions C08_left_recursion_elim.
 Print Assumptions C08_instance.
 Print Assumptions C08_chomsky_concrete.
 Print Assumptions C08_del_concrete.
